@@ -142,6 +142,10 @@ def gen_ruleset(rng, max_structs=4, max_pos=4, max_groups=4, max_vals=3, mode=No
             'prince': [], 'mode': mode}
     if omen is not None:
         spec['omen'] = omen
+    # a ruleset touched by hand or by another tool: the last record of some files is not followed by a newline
+    if rng.random() < 0.2:
+        names = sorted(terminals) + ['grammar'] + (['omen_prob'] if omen_prob else [])
+        spec['no_final_newline'] = sorted(rng.sample(names, rng.randint(1, len(names))))
     return spec
 
 
